@@ -1,3 +1,113 @@
-//! Kani contract harnesses for custom_tap_hold (included from /repo/parser/src/cfg/custom_tap_hold.rs under cfg(kani)).
+//! Kani contract harnesses for parser/src/cfg/custom_tap_hold.rs (property C05: the `keys`
+//! variants of tap-hold) (included from /repo/parser/src/cfg/custom_tap_hold.rs under cfg(kani)).
 #![allow(unused_imports, dead_code)]
 use super::*;
+use kanata_keyberon::layout::verif_with_queued_iter;
+
+const CQ_N: usize = 3;
+
+// The allocation tracker (a parking_lot mutex around a Vec of addresses) is irrelevant to what
+// the closures compute and makes the Kani compiler crash on an atomic intrinsic; it is stubbed
+// by plain leaking boxes.  Stubs are listed in the evidence (trusted base).
+fn stub_sref<T>(_a: &Allocations, v: T) -> &'static T {
+    Box::leak(Box::new(v))
+}
+fn stub_bref_slice<T>(_a: &Allocations, v: Box<[T]>) -> &'static [T] {
+    Box::leak(v)
+}
+fn mk_alloc() -> std::sync::Arc<Allocations> {
+    unsafe { Allocations::new() }
+}
+
+fn any_event() -> Event {
+    let j: u16 = kani::any();
+    kani::assume(j < 4);
+    if kani::any() {
+        Event::Press(0, j)
+    } else {
+        Event::Release(0, j)
+    }
+}
+
+/// tap-hold-release-keys: "a listed key pressed -> tap" early; otherwise as tap-hold-release
+/// (another key pressed AND THEN released -> hold); scanning the queue in order.
+/// Listed key: KEY_1 (code 2).  Bound: queue <= 3 events over keys 0..4.
+#[kani::proof]
+#[kani::unwind(6)]
+#[kani::stub(Allocations::sref, stub_sref)]
+#[kani::stub(Allocations::bref_slice, stub_bref_slice)]
+fn c05_b_custom_release_keys() {
+    let a = mk_alloc();
+    let f = custom_tap_hold_release(&[OsCode::KEY_1], &a);
+    let evs = [(any_event(), 0u16), (any_event(), 0u16), (any_event(), 0u16)];
+    let n: usize = kani::any();
+    kani::assume(n <= CQ_N);
+    let (r, skip) = verif_with_queued_iter(&evs[..n], |it| f(it));
+    // oracle: first press (in queue order) that decides
+    let mut want: Option<WaitingAction> = None;
+    let mut i = 0;
+    while i < n && want.is_none() {
+        if let Event::Press(_, j) = evs[i].0 {
+            if j == 2 {
+                want = Some(WaitingAction::Tap);
+            } else {
+                let mut k = i + 1;
+                while k < n {
+                    if evs[k].0 == Event::Release(0, j) {
+                        want = Some(WaitingAction::Hold);
+                    }
+                    k += 1;
+                }
+            }
+        }
+        i += 1;
+    }
+    core::mem::forget(a);
+    assert!(r == want);
+    assert!(!skip);
+    kani::cover!(n == CQ_N && r == Some(WaitingAction::Hold), "hold with full queue");
+    kani::cover!(n == CQ_N && r == Some(WaitingAction::Tap), "tap with full queue");
+}
+
+/// tap-hold-except-keys: a listed key pressed -> tap; another key pressed -> normal timeout
+/// handling; no press at all -> keep waiting even past the timeout.
+#[kani::proof]
+#[kani::unwind(6)]
+#[kani::stub(Allocations::sref, stub_sref)]
+#[kani::stub(Allocations::bref_slice, stub_bref_slice)]
+fn c05_b_custom_except_keys() {
+    let a = mk_alloc();
+    let f = custom_tap_hold_except(&[OsCode::KEY_1], &a);
+    let evs = [(any_event(), 0u16), (any_event(), 0u16), (any_event(), 0u16)];
+    let n: usize = kani::any();
+    kani::assume(n <= CQ_N);
+    let (r, skip) = verif_with_queued_iter(&evs[..n], |it| f(it));
+    core::mem::forget(a);
+    let mut first_press: Option<u16> = None;
+    let mut i = n;
+    while i > 0 {
+        i -= 1;
+        if let Event::Press(_, j) = evs[i].0 {
+            first_press = Some(j);
+        }
+    }
+    match first_press {
+        Some(2) => assert!(r == Some(WaitingAction::Tap) && !skip),
+        Some(_) => assert!(r.is_none() && !skip),
+        None => assert!(r.is_none() && skip),
+    }
+}
+
+/// must-fail twin: claims release-keys never holds
+#[kani::proof]
+#[kani::unwind(6)]
+#[kani::stub(Allocations::sref, stub_sref)]
+#[kani::stub(Allocations::bref_slice, stub_bref_slice)]
+fn c05_b_custom_release_keys_neg() {
+    let a = mk_alloc();
+    let f = custom_tap_hold_release(&[OsCode::KEY_1], &a);
+    let evs = [(any_event(), 0u16), (any_event(), 0u16)];
+    let (r, _) = verif_with_queued_iter(&evs[..2], |it| f(it));
+    core::mem::forget(a);
+    assert!(r != Some(WaitingAction::Hold));
+}
